@@ -22,7 +22,7 @@ struct data_t
     int64_t                                 n{0}, tsize{1};
 };
 
-data_t make_data(vt::Rng& rng, int64_t n, int64_t nscalar, int64_t nsclass, int64_t nmclass, int64_t tsize, int64_t vrange, bool missing)
+data_t make_data(vt::Rng& rng, int64_t n, int64_t nscalar, int64_t nsclass, int64_t nmclass, int64_t tsize, int64_t vrange, bool missing, int64_t maxclasses = 4)
 {
     data_t D;
     D.n     = n;
@@ -41,7 +41,7 @@ data_t make_data(vt::Rng& rng, int64_t n, int64_t nscalar, int64_t nsclass, int6
     }
     for (int64_t c = 0; c < nsclass; ++c)
     {
-        const auto classes = rng.range(1, 4);
+        const auto classes = rng.range(1, maxclasses);
         auto       col     = vt::make_sclass_column("f" + std::to_string(id++), classes, n);
         for (int64_t s = 0; s < n; ++s)
         {
@@ -52,7 +52,7 @@ data_t make_data(vt::Rng& rng, int64_t n, int64_t nscalar, int64_t nsclass, int6
     }
     for (int64_t c = 0; c < nmclass; ++c)
     {
-        const auto classes = rng.range(1, 3);
+        const auto classes = rng.range(1, std::max<int64_t>(3, maxclasses - 2));
         auto       col     = vt::make_mclass_column("f" + std::to_string(id++), classes, n);
         for (auto& v : col.flat)
         {
@@ -199,8 +199,9 @@ void algebra_case(vt::Rng& rng, int64_t icase)
     const auto kind = rng.pick(std::vector<std::string>{"affine", "hinge", "stump", "dense-table", "kbest-table", "ksplit-table", "dstep-table", "dtree"});
     const auto crit = rng.pick(std::vector<std::string>{"rss", "aic", "aicc", "bic"});
     const auto scalar_only = kind == "dtree" && rng.coin();
-    const auto D = make_data(rng, n, rng.range(1, 4), scalar_only ? 0 : rng.range(0, 3), scalar_only ? 0 : rng.range(0, 1), rng.range(1, 3), rng.coin() ? 3 : 50,
-                             true);
+    // 1..8 features: scalar, categorical with 1..6 classes, multi-label
+    const auto D = make_data(rng, n, rng.range(1, 4), scalar_only ? 0 : rng.range(0, 3), scalar_only ? 0 : rng.range(0, 2), rng.range(1, 3), rng.coin() ? 3 : 50,
+                             true, 6);
     const auto g   = make_gradients(rng, D, rng.coin());
     const auto pos = make_positions(rng, n, 2, 60);
 
@@ -208,7 +209,7 @@ void algebra_case(vt::Rng& rng, int64_t icase)
     wlearner->parameter("wlearner::criterion") = crit;
     if (kind == "dtree")
     {
-        wlearner->parameter("wlearner::dtree::max_depth") = scalar_only ? 1 : rng.range(1, 3);
+        wlearner->parameter("wlearner::dtree::max_depth") = scalar_only ? 1 : rng.range(1, 4);
         wlearner->parameter("wlearner::dtree::min_split") = rng.range(1, 3);
     }
     const auto score = wlearner->fit(*D.dataset, pos, g);
